@@ -13,7 +13,7 @@ from pipeline import field, pipe_req
 from props.graphfacts import conclude, replay  # noqa: F401
 
 THEOREMS = ["Rva.sortDiags_sorted", "Rva.sortDiags_perm", "Rva.sorted_unique", "Rva.sortDiags_order_independent",
-            "Rva.firstLabel_spec", "Rva.firstLabel_order_free", "Rva.minLabel_spec"]
+            "Rva.firstLabel_spec", "Rva.firstLabel_order_free", "Rva.cfgErrDiag_located"]
 
 
 def many_clobbers(rng):
